@@ -17,13 +17,16 @@ RULE = (
     "cancels, signals, duplicate StartStage, recovery sweeps, operator RestartStage and pause / unpause; jump-heavy loops; crash-engine "
     "runs (every 3rd commit snapshot resumed with recovery); and - via the interleaving engine - racing workers, also with an operator thread (cancel / pause + unpause / restart "
     "of a finished stage issued at a random point while 3 workers run; and CancelWorkflow x StartWorkflow / CompleteWorkflow "
-    "handler pairs under every schedule with <= 2 preemptions). Oracle: "
+    "handler pairs under every schedule with <= 2 preemptions; the operator races also with a worker COMMIT failing now and "
+    "then with 'database is locked'; and RunTask / CompleteTask / StartTask / CompleteStage whose n-th commit fails once "
+    "with a lock error - the engine retries with the same in-memory stage - x a CancelStage of the same stage handled by "
+    "another worker at every yield point of the first, in particular between the failed commit and the retry). Oracle: "
     "(old -> new) is in VALID_TRANSITIONS and old is not a completed status, unless the row sits in a commit group that "
     "carries a JumpToStage / RestartStage processed mark (the explicit re-arm). Non-trivial = a status row; distinct = "
     "(entity kind, old, new, re-arm?) edges observed."
 )
 ASSUMPTIONS = ["SQLite backend", "re-arm exemption is decided from the engine's own processed mark in the same commit group, not from timing"]
-MIN_OBS = {"transitions_checked": {"quick": 20000, "thorough": 300000}, "operator_action_runs": {"quick": 60, "thorough": 800}, "workflow_row_writer_pairs_with_switch": {"quick": 100, "thorough": 1500}}
+MIN_OBS = {"transitions_checked": {"quick": 20000, "thorough": 300000}, "operator_action_runs": {"quick": 60, "thorough": 800}, "workflow_row_writer_pairs_with_switch": {"quick": 100, "thorough": 1500}, "commit_fault_pair_runs": {"quick": 3000, "thorough": 15000}}
 TIMEOUT = {"quick": 800, "thorough": 3400}
 
 
@@ -33,9 +36,13 @@ def gen_cases(tier: str, seed: int) -> list[dict]:
     cases += [{"kind": "crash", "spec_i": i, "seed": seed} for i in range(12 if tier == "quick" else 60)]
     cases += [{"kind": "race", "i": i, "seed": seed} for i in range(8 if tier == "quick" else 60)]
     cases += [{"kind": "race", "i": 1000 + i, "seed": seed, "ops": True} for i in range(12 if tier == "quick" else 120)]
+    cases += [{"kind": "race", "i": 3000 + i, "seed": seed, "ops": True, "faults": True} for i in range(16 if tier == "quick" else 160)]
     for other in ("StartWorkflow", "CompleteWorkflow"):
         for sp in range(2):
             cases.append({"kind": "cancel_pair", "other": other, "spec": sp, "seed": seed, "sample": 100 if tier == "quick" else 1500})
+    for first in ("RunTask", "CompleteTask", "StartTask", "CompleteStage"):
+        for sp in range(3):
+            cases.append({"kind": "fault_pair", "first": first, "spec": sp, "seed": seed, "sample": 30 if tier == "quick" else 300})
     return cases
 
 
@@ -189,6 +196,98 @@ def _cancel_pair(case: dict) -> dict:
     return {"violations": _uniq(violations), "obs": dict(obs), "keys": sorted(keys), "edges": dict(edges)}
 
 
+def _fault_pair(case: dict) -> dict:
+    """A handler whose commit fails once with a lock error (TransactionHelper.execute_atomic then retries with the SAME
+    in-memory stage) x a CancelStage of the same stage, handled by another worker between the failed commit and
+    the retry - every commit of the first handler in turn, every schedule with <= 2 preemptions (sampled).  Whatever
+    the retry writes, every durable status change must still be a table transition and a completed status stays."""
+    import json as _json
+    import os
+
+    from .. import interleave as il
+    from ..world import World
+
+    spec = [specs.chain(2), specs.multitask(), specs.polling(1)][case["spec"]]
+    obs: Counter = Counter()
+    edges: Counter = Counter()
+    violations: list = []
+    keys: set = set()
+    rng = random.Random(case["seed"] * 173 + case["spec"])
+    w = World()
+    cuts = []
+    try:
+        w.submit(spec)
+        for _ in range(200):
+            rows = w.eligible(w.rows())
+            if not rows:
+                break
+            head = rows[0]
+            if head["type"] == case["first"]:
+                sid = _json.loads(head["payload"]).get("stage_id")
+                path = os.path.join(il.env.scratch_dir(), f"cut-{os.getpid()}-{random.randrange(1 << 40)}.db")
+                w.store._get_connection().commit()
+                w.copy_db(path)
+                cuts.append((path, head["id"], sid))
+                if len(cuts) >= 2:
+                    break
+            w.deliver(head["id"])
+    finally:
+        w.close()
+    for path, rid, sid in cuts:
+        # in a copy: accept the cancel and handle CancelWorkflow, so that the CancelStage messages are queued
+        w2 = il.copy_world(path)
+        db = None
+        try:
+            from stabilize.queue.messages import CancelStage
+
+            w2.wf_id = w2._exec_side("SELECT id FROM pipeline_executions LIMIT 1").fetchone()[0]
+            # a CancelStage for that stage alone (what CancelRegion, a deferred-choice loser or a cancel accepted a
+            # moment later sends): the workflow itself is not flagged, so the first handler takes its regular path
+            w2.queue.push(CancelStage(execution_type="PIPELINE", execution_id=w2.wf_id, stage_id=sid))
+            cs = [r for r in w2.rows() if r["type"] == "CancelStage" and _json.loads(r["payload"]).get("stage_id") == sid]
+            if cs:
+                db = os.path.join(il.env.scratch_dir(), f"cut-{os.getpid()}-{random.randrange(1 << 40)}.db")
+                w2.store._get_connection().commit()
+                w2.copy_db(db)
+                pair = [rid, cs[0]["id"]]
+        finally:
+            w2.close()
+            os.unlink(path)
+        if db is None:
+            obs["no_cancel_stage_for_cut"] += 1
+            continue
+        try:
+            na, nb = il.solo_length(db, pair[0]), il.solo_length(db, pair[1])
+            solo, _info = il.run_pair(db, [pair[0]], il.Segments([("W0", 10**6)]), drain=False)
+            ncommits = len([c for c in (solo.commits if solo else []) if c[3]]) or 3
+            for n in range(min(ncommits, 4)):
+                # every single-preemption schedule (the other worker runs to completion at each yield point of the
+                # first, in particular between the failed commit and the retry) + a sample of two-preemption ones
+                one = il.bound_schedules(na + 8, nb, 1)
+                two = il.bound_schedules(na + 8, nb, 2, sample=case["sample"], rng=rng)[len(one):]
+                scheds = one + (rng.sample(two, min(len(two), case["sample"])) if two else [])
+                for sc in scheds:
+                    fp = il.nth_commit_failpoint("W0", n)
+                    run, info = il.run_pair(db, pair, il.Segments(sc), failpoint=fp)
+                    obs["evaluations"] += 1
+                    if run is None:
+                        obs["scheduler_watchdog"] += 1
+                        continue
+                    if fp.state["fired"]:
+                        obs["commit_fault_pair_runs"] += 1
+                        if info["switches"]:
+                            keys.add(f"faultpair:{case['first']}:{n}:{info['trace_hash']}")
+                    v, e = oracles.transition_check(run.audit, run.commits)
+                    edges.update(e)
+                    for x in v:
+                        x.update(pair=f"{case['first']}(commit {n} fails once) x CancelStage", schedule=sc, spec=spec["name"])
+                    violations += v
+        finally:
+            os.unlink(db)
+    obs["transitions_checked"] = sum(edges.values())
+    return {"violations": _uniq(violations), "obs": dict(obs), "keys": sorted(keys), "edges": dict(edges)}
+
+
 def _mechanism(vs: list[dict], run) -> list[dict]:
     """Re-sign completed-status changes made by a JumpToStage that was handled after the cancel."""
     from ..framework import viol
@@ -219,6 +318,8 @@ def run_case(case: dict) -> dict:
         return _delivery(case)
     if case["kind"] == "crash":
         return _crash(case)
+    if case["kind"] == "fault_pair":
+        return _fault_pair(case)
     if case["kind"] == "cancel_pair":
         return _cancel_pair(case)
     return _race(case)
